@@ -41,7 +41,18 @@ def witness_cases():
     old, new = sc.ENGINEERED[0]
     nested = {"props": {"p2": sc.NESTED1}, "refs": {}}
     fin = [{"op": "changes", "ds": "a", "since": 0, "limit": 0}, {"op": "changes", "ds": "a", "since": 0, "limit": 0, "latest": True}]
-    return [
+    C = {"props": {"p1": "bb"}, "refs": {}}
+    race_fin = [{"op": "changes", "ds": "a", "reader": "rx", "limit": 0}] + fin
+    races = [
+        {"datasets": ["a"], "ops": [{"op": "batch", "ds": "a", "ents": [sc.with_id("e1", A)]},
+                                    {"op": "changes", "ds": "a", "reader": "rx", "limit": 0},
+                                    {"op": "race", "ds": "a", "ents": [sc.with_id("e2", A), sc.with_id("e3", B)], "second": [sc.with_id("e4", C)],
+                                     "pause_at": "batch.beforeIdCommit", "reader": "rx", "limit": 0}] + race_fin},
+        {"datasets": ["a"], "ops": [{"op": "batch", "ds": "a", "ents": [sc.with_id("e1", A)]},
+                                    {"op": "race", "ds": "a", "ents": [sc.with_id("e1", B)], "second": [sc.with_id("e1", C)],
+                                     "pause_at": "lock.wait", "reader": "rx", "limit": 0}] + race_fin},
+    ]
+    return races + [
         # F02a: identical element repeated inside one batch (new id)
         {"datasets": ["a"], "ops": [{"op": "batch", "ds": "a", "ents": [sc.with_id("e1", A), sc.with_id("e1", A)]}] + fin},
         # F02a: existing id
@@ -65,13 +76,18 @@ def gen_case(rng, nw, rich=True):
     writes = sc.gen_writes(rng, nds, nw, pool, rich)
     ops = []
     readers = [("r1", rng.choice([1, 2, 3]), False), ("r2", rng.choice([1, 2, 0]), rng.chance(1, 2))]
+    memo = {}
     for w in writes:
         ops.append(w)
+        if rng.chance(1, 6):
+            ops.append(sc.gen_race(rng, pool, memo, sc.DS_NAMES[rng.below(nds)], "rx", rich))
         for name, lim, latest in readers:
             if rng.chance(1, 2):
                 d = sc.DS_NAMES[rng.below(nds)]
                 ops.append({"op": "changes", "ds": d, "reader": name, "limit": lim, "latest": latest})
     for d in sc.DS_NAMES[:nds]:
+        for _ in range(2):
+            ops.append({"op": "changes", "ds": d, "reader": "rx", "limit": 0})
         for name, lim, latest in readers:      # drain the readers
             for _ in range(3):
                 ops.append({"op": "changes", "ds": d, "reader": name, "limit": lim, "latest": latest})
@@ -80,6 +96,13 @@ def gen_case(rng, nw, rich=True):
         ops.append({"op": "changes", "ds": d, "since": rng.range(0, 4), "limit": rng.choice([1, 2, 0]), "latest": rng.chance(1, 2)})
         ops.append({"op": "changes", "ds": d, "since": 50 + rng.below(5), "limit": 0})
         ops.append({"op": "changes", "ds": d, "since": 1 << 40, "limit": 2})
+        # the reverse reader: from the end / from a position / beyond the end, and a token-carrying reverse reader drained to the start
+        ops.append({"op": "changes_rev", "ds": d, "since": 0, "limit": 0})
+        ops.append({"op": "changes_rev", "ds": d, "since": rng.range(1, 6), "limit": rng.choice([0, 1, 2])})
+        ops.append({"op": "changes_rev", "ds": d, "since": 60, "limit": 2})
+        lim = rng.choice([1, 2, 3])
+        for _ in range(4):
+            ops.append({"op": "changes_rev", "ds": d, "reader": "rr", "limit": lim})
     return {"datasets": sc.DS_NAMES[:nds], "ops": ops}
 
 
